@@ -1,15 +1,5 @@
 package vrt
 
-import (
-	"runtime"
-	"runtime/debug"
-)
-
-// DisableGC turns the garbage collector off for the process; Explore collects between
-// executions. Object addresses serve as identities in traces and happens-before hashes,
-// so an address must never be reused while an execution is running.
-func DisableGC() { debug.SetGCPercent(-1) }
-
 // Explorer: stateless depth-first enumeration of schedules with iterative
 // preemption bounding and happens-before state caching.
 //
@@ -67,11 +57,6 @@ func Explore(opt Options, body func(s *Sched), check func(x *Exec) bool) Stats {
 			if opt.Stop != nil && st.Executions%256 == 0 && opt.Stop() {
 				st.Capped = true
 				return st
-			}
-			if st.Executions%2000 == 1999 {
-				// the collector is off while executions run (see DisableGC): object addresses are
-				// identities, and an address must not be reused within one execution
-				runtime.GC()
 			}
 			prefix := stack[len(stack)-1]
 			stack = stack[:len(stack)-1]
